@@ -480,6 +480,150 @@ if log or not (isinstance(out, BaseException) or out is StopIteration or type(ou
             o.detail = incomplete
     return ob
 
+# ---------------------------------------------------------------------------
+def _reset_module_state(module, pristine):
+    """module-level mutable tables are part of the state a history runs over:
+    every path starts from the tables as they were at import"""
+    for k, v in pristine.items():
+        g = getattr(module, k, None)
+        if isinstance(g, dict):
+            g.clear()
+            g.update(v)
+
+
+def ob_history(run, interp):
+    """permission to use a class belongs to the call (the connection's
+    switches), not to the process: two loads in a row with independent
+    switches; the second is judged against its own switches only"""
+    from rpyc.core import vinegar
+    RECS = [("mymod", "MyExc"), ("lazymod", "LazyExc"), ("builtins", "KeyError"), ("mymod", "NotAnException"), ("nosuchmod", "X")]
+
+    def ob(o):
+        o.symbolic = ["two consecutive vinegar.load calls; each has its own three switches: 6 Bools",
+                      "records: exhaustive over %d x %d (module, class) pairs" % (len(RECS), len(RECS))]
+        o.bounds = {"history_length": 2}
+        acc = Acc()
+
+        def harness(c):
+            pristine = getattr(ob_history, "_pristine", None)
+            if pristine is None:
+                pristine = ob_history._pristine = dict((k, dict(v)) for k, v in vars(vinegar).items() if type(v) is dict and not k.startswith("__"))
+            _reset_module_state(vinegar, pristine)
+            mymod, lazy = make_modules()
+            mods = {"builtins": builtins, "mymod": mymod, "os": __import__("os")}
+            imports = []
+
+            def fake_import(name, *a, **k):
+                imports.append(name)
+                if name == "lazymod":
+                    mods["lazymod"] = lazy
+                    return lazy
+                raise ImportError(name)
+            interp.override_global(vinegar, "sys", FakeSys(mods))
+            interp.override_global(vinegar, "__import__", fake_import)
+            del Canary.log[:]
+            sw1 = [SymBool(c.fresh_bool("first_" + n)) for n in ("import_custom", "instantiate_custom", "instantiate_oldstyle")]
+            sw2 = [SymBool(c.fresh_bool("second_" + n)) for n in ("import_custom", "instantiate_custom", "instantiate_oldstyle")]
+            r1 = RECS[c.choose(len(RECS), "first")]
+            r2 = RECS[c.choose(len(RECS), "second")]
+            interp.call(vinegar.load, ((r1, (1,), (), "TB1"), sw1[0], sw1[1], sw1[2]))
+            present = r2[0] in mods
+            n_imports = len(imports)
+            c.notes.update(sw1=sw1, sw2=sw2, r1=r1, r2=r2, present=present, lazy=lazy, mymod=mymod)
+            exc = interp.call(vinegar.load, ((r2, (2,), (), "TB2"), sw2[0], sw2[1], sw2[2]))
+            c.notes.update(imports2=imports[n_imports:])
+            return exc
+
+        def on_path(r):
+            c = r.ctx
+            if r.outcome == "abort":
+                return
+            n = c.notes
+            acc.inc("%s>%s" % (n["r1"][1], n["r2"][1]))
+            imp, inst, old = [s.e for s in n["sw2"]]
+            mod, name = n["r2"]
+            bad = None
+            conds = []
+            if r.outcome != "return":
+                bad = "second load raised %s" % (type(r.exc).__name__ if r.exc else r.outcome)
+            else:
+                exc = r.value
+                src = {"mymod": n["mymod"], "lazymod": n["lazy"], "builtins": builtins}.get(mod)
+                cand = getattr(src, name, None) if src is not None else None
+                ok_cls = isinstance(cand, type) and issubclass(cand, BaseException)
+                if mod == "builtins":
+                    want_real = z3.BoolVal(ok_cls)
+                elif ok_cls:
+                    avail = z3.BoolVal(True) if n["present"] else (imp if mod == "lazymod" else z3.BoolVal(False))
+                    want_real = z3.And(inst, avail)
+                else:
+                    want_real = z3.BoolVal(False)
+                is_real = ok_cls and isinstance(exc, cand) and type(exc).__name__ == cand.__name__ and not isinstance(exc, vinegar.GenericException)
+                is_generic = isinstance(exc, vinegar.GenericException) and type(exc).__name__ == "%s.%s" % (mod, name)
+                conds.append(z3.BoolVal(bool(is_real)) == want_real)
+                conds.append(z3.BoolVal(bool(is_generic)) == z3.Not(want_real))
+                conds.append(z3.BoolVal(bool(n["imports2"])) == z3.And(imp, z3.BoolVal(not n["present"])))
+                if Canary.log:
+                    bad = "a constructor ran on the receiver: %s" % (Canary.log,)
+            model = None
+            if bad is None and conds:
+                ok, model = c.must_hold(z3.And(*conds))
+                if not ok:
+                    bad = "the second load of %s.%s does not follow its own switches after a load of %s.%s" % (mod, name, n["r1"][0], n["r1"][1])
+            if len(o.samples) < 4 and r.outcome == "return":
+                o.samples.append({"first": ".".join(n["r1"]), "second": ".".join(n["r2"]), "result_class": type(r.value).__name__})
+            if bad and len(o.violations) < 4:
+                m = model or c.check_model()
+                if m is None:
+                    return
+                s1 = [z3.is_true(m.eval(s.e, model_completion=True)) for s in n["sw1"]]
+                s2 = [z3.is_true(m.eval(s.e, model_completion=True)) for s in n["sw2"]]
+                sig = "history:%s>%s" % (n["r1"][1], n["r2"][1])
+                if any(v["signature"] == sig for v in o.violations):
+                    return
+                run.replay(o, sig, "%s (first switches %s, second switches %s)" % (bad, s1, s2), replay_history(n["r1"], s1, n["r2"], s2))
+
+        n_, incomplete = par_explore(run, o, harness, on_path, acc, split_depth=5)
+        o.paths = dict(acc.counts, total=n_)
+        if incomplete:
+            o.verdict = "inconclusive"
+            o.detail = incomplete
+        if len(acc.counts) != len(RECS) ** 2:
+            raise core.HarnessError("reachability twin: %d of %d record pairs completed" % (len(acc.counts), len(RECS) ** 2))
+    return ob
+
+
+def replay_history(r1, s1, r2, s2):
+    return REPLAY_HEAD + """
+r1, s1, r2, s2 = %r, %r, %r, %r
+lazy = types.ModuleType("lazymod"); lazy.LazyExc = type("LazyExc", (Exception,), {"__module__": "lazymod"})
+def spy2(name, *a, **k):
+    log.append("import " + name)
+    if name == "lazymod":
+        sys.modules["lazymod"] = lazy; return lazy
+    raise ImportError(name)
+vinegar.__dict__["__import__"] = spy2
+sys.modules.pop("lazymod", None)
+vinegar.load((r1, (1,), (), "TB1"), *s1)
+present = r2[0] in sys.modules
+del log[:]
+exc = vinegar.load((r2, (2,), (), "TB2"), *s2)
+imp, inst, old = s2
+mod, name = r2
+cand = getattr({"mymod": mymod, "lazymod": lazy, "builtins": builtins}.get(mod), name, None)
+ok_cls = isinstance(cand, type) and issubclass(cand, BaseException)
+want_real = ok_cls and (mod == "builtins" or (inst and (present or (imp and mod == "lazymod"))))
+is_real = ok_cls and isinstance(exc, cand) and type(exc).__name__ == cand.__name__ and not isinstance(exc, vinegar.GenericException)
+bad = []
+if is_real != want_real: bad.append("real class %%r, expected %%r" %% (is_real, want_real))
+if isinstance(exc, vinegar.GenericException) == want_real: bad.append("generic stand-in: %%r" %% (not want_real,))
+if bool([l for l in log if l.startswith("import")]) != (imp and not present): bad.append("imports %%r" %% log)
+if [l for l in log if "__init__" in l]: bad.append("constructor ran")
+print(type(exc), bad)
+if bad:
+    print("REPRODUCED"); sys.exit(1)
+""" % (r1, s1, r2, s2)
+
 
 def main():
     run = Run("C09", level="other")
@@ -491,6 +635,7 @@ def main():
     run.obligation("O1_class_resolution", "vinegar.load resolves classes exactly as configured; no import / constructor otherwise", ob_load(run, interp))
     run.obligation("O2_roundtrip", "dump -> record -> load: same built-in class, normalised args, gated traceback/version", ob_roundtrip(run, interp))
     run.obligation("O3_hostile_payloads", "crafted payloads: raises or returns an exception; no import, no constructor", ob_hostile(run, interp))
+    run.obligation("O4_history", "two loads in a row with independent switches: the second follows its own switches only (no process-wide memo of permissions)", ob_history(run, interp))
     run.note_encoded(interp)
     sys.exit(run.finish())
 
